@@ -47,8 +47,17 @@ def log(*a):
     print(*a, file=sys.stderr, flush=True)
 
 
+def _die_with_parent():
+    """child processes must not outlive a killed check (PR_SET_PDEATHSIG = 1, SIGKILL = 9)"""
+    try:
+        import ctypes
+        ctypes.CDLL("libc.so.6", use_errno=True).prctl(1, 9)
+    except Exception:
+        pass
+
+
 def sh(cmd, **kw):
-    return subprocess.run(cmd, stdout=subprocess.PIPE, stderr=subprocess.PIPE, text=True, **kw)
+    return subprocess.run(cmd, stdout=subprocess.PIPE, stderr=subprocess.PIPE, text=True, preexec_fn=_die_with_parent, **kw)
 
 
 # ------------------------------------------------------------------------------------------------
@@ -129,7 +138,8 @@ def run_lines(cmd, lines, jobs=NCPU, env=None, timeout=3600):
         e.update(env)
 
     def one(p):
-        r = subprocess.run(cmd + [p], stdout=subprocess.PIPE, stderr=subprocess.PIPE, env=e, timeout=timeout)
+        r = subprocess.run(cmd + [p], stdout=subprocess.PIPE, stderr=subprocess.PIPE, env=e, timeout=timeout,
+                           preexec_fn=_die_with_parent)
         return r
 
     with ThreadPoolExecutor(max_workers=jobs) as ex:
